@@ -6,6 +6,9 @@ import Zc.Proofs.SurviveFlush
 import Zc.Proofs.BitmapIters
 import Zc.Proofs.NameTextGlue
 import Zc.Props.C15Route
+import Zc.Props.C15Closed
+import Zc.Props.C15ClosedQ
+import Zc.Props.C15Names
 import Zc.Props.C02
 /-! # C15 — a running instance survives any datagram stream
 
